@@ -144,6 +144,36 @@ mod response;
 mod impl_coap_message;
 mod impl_coap_message_0_3;
 
+/// Verification hook: trace of the `reserve` calls and raw-pointer copies
+/// performed by the serialiser (see `Packet::to_bytes`).
+#[cfg(all(coap_lite_verif, feature = "std"))]
+pub mod verif {
+    use std::cell::RefCell;
+
+    /// One serialiser event.
+    #[derive(Debug, Clone, PartialEq)]
+    pub enum CopyEvent {
+        /// `reserve(additional)` on a vector of length `len`.
+        Reserve { len: usize, additional: usize },
+        /// `ptr::copy` of `count` bytes to offset `offset` of a vector with
+        /// capacity `capacity`.
+        Copy { capacity: usize, offset: usize, count: usize },
+    }
+
+    thread_local! {
+        static TRACE: RefCell<Vec<CopyEvent>> = const { RefCell::new(Vec::new()) };
+    }
+
+    pub(crate) fn record(event: CopyEvent) {
+        TRACE.with(|t| t.borrow_mut().push(event));
+    }
+
+    /// Returns and clears the events recorded on this thread.
+    pub fn take_copy_trace() -> Vec<CopyEvent> {
+        TRACE.with(|t| std::mem::take(&mut *t.borrow_mut()))
+    }
+}
+
 #[cfg(feature = "std")]
 pub use block_handler::{BlockHandler, BlockHandlerConfig};
 pub use header::{
